@@ -28,6 +28,7 @@ def default_profile(rng):
         "allocs": fam in ("reuse", "both"),
         "rank_reducing": rng.random() < 0.4,
         "ifs": rng.random() < 0.3,
+        "mixed_lb": rng.choice([0, 0, 0.3]),
         "counter": rng.random() < 0.15,
     }
 
@@ -68,12 +69,16 @@ class LoopGen:
         out.append({"k": "min", "name": nm, "iv": r.choice(ivs), "c": 8, "t": r.choice([12, 20])})
         return nm
 
-    def bound(self):
+    def bound(self, ivs=()):
         r = self.r
         if self.p["const_bounds"]:
             lb = r.choice([0, 0, 0, 1, 2])
             step = r.choice([1, 1, 2, 3])
             ub = r.choice([0, 1, 2, 3, 4, 5, 7, 8])
+            if self.p.get("mixed_lb") and r.random() < self.p["mixed_lb"]:
+                # constant upper bound and step, but a lower bound that is not a constant: an argument, or the induction
+                # variable of an enclosing loop (triangular nest)
+                return r.choice(list(ivs) + ["%l0"]), f"%c{ub}", f"%c{step}"
             return f"%c{lb}", f"%c{ub}", f"%c{step}"
         return r.choice(["%c0", "%c0", "%l0"]), r.choice(["%n0", "%n1"]), r.choice(["%c1", "%c1", "%c2", "%t0"])
 
@@ -151,7 +156,7 @@ class LoopGen:
 
     def loop(self, depth, scope, ivs, bufs):
         iv = self.fresh("i")
-        lb, ub, st = self.bound()
+        lb, ub, st = self.bound(ivs)
         node = {"k": "for", "iv": iv, "lb": lb, "ub": ub, "step": st}
         node["body"] = self.body(depth + 1, scope, ivs + [iv], bufs)
         return node
